@@ -115,6 +115,7 @@ type c20Conn struct {
 	GraphPadding bool `json:"graph_padding,omitempty"` // ... a non-zero label/icon padding
 	Related      string `json:"related,omitempty"`     // src-ancestor-of-dst | dst-ancestor-of-src
 	Route    [][2]float64 `json:"route"`
+	gRoute0  *geo.Point
 }
 
 // c20EnlargedBox: the box the renderer places outside/border labels on (d2svg: box around the 3d/multiple copies).
@@ -262,6 +263,9 @@ func c20Observe(engine string, d *d2target.Diagram, g *d2graph.Graph) (conns []c
 			c.Related = "dst-ancestor-of-src"
 		}
 		rt := d.Connections[i].Route
+		if len(e.Route) > 0 {
+			c.gRoute0 = e.Route[0]
+		}
 		for _, p := range rt {
 			c.Route = append(c.Route, [2]float64{p.X, p.Y})
 			if !c20Finite(p.X, p.Y) {
@@ -295,6 +299,9 @@ const (
 	c20KFRouter3D     = "C20-router-3d-multiple"
 	c20KFContainerDesc = "C20-container-descendant-edge"
 	c20KFSrcIcon      = "C20-router-source-icon-size"
+	c20KFShortRay     = "C20-trace-border-short-ray"
+	c20KFC4Head       = "C20-c4person-head-overhang"
+	c20KFElkNonRectContainer = "C20-elk-nonrect-container"
 )
 
 func c20KF(c *c20Conn, e *c20End, isDst bool) []string {
@@ -310,6 +317,15 @@ func c20KF(c *c20Conn, e *c20End, isDst bool) []string {
 	}
 	if (c.Related != "" || (c.SelfLoop && e.Container)) && (c.Router == "default" || c.Engine == "dagre") {
 		kf = append(kf, c20KFContainerDesc)
+	}
+	if c.Engine == "elk" && c.Router == "core" && e.Container && !e.RectLike {
+		kf = append(kf, c20KFElkNonRectContainer)
+	}
+	if !e.RectLike && e.Box.H > 2*e.Box.W {
+		kf = append(kf, c20KFShortRay)
+	}
+	if e.Shape == "c4-person" && 0.44*e.Box.W > e.Box.H {
+		kf = append(kf, c20KFC4Head)
 	}
 	if c.Router == "default" && !isDst && e.OutIcon {
 		kf = append(kf, c20KFSrcIcon)
@@ -345,6 +361,9 @@ func c20EndCase(sc c20Script, c *c20Conn, e *c20End, o *d2graph.Object, other *d
 	// true rectangle (TraceToShapeBorder is the identity there)
 	if c.Router == "default" && c.N == 2 && o != nil && c20TrueRect(o) {
 		nb := c20P(c.Route[0][0], c.Route[0][1])
+		if isDst && c.gRoute0 != nil {
+			nb = c20P(c.gRoute0.X, c.gRoute0.Y) // as TraceToShape saw it: not truncated by the exporter
+		}
 		if !isDst {
 			ctr := other.Center()
 			nb = c20P(ctr.X, ctr.Y)
@@ -373,6 +392,21 @@ func c20Gen(r *Rng, tier string, n int) []Case {
 	if f := os.Getenv("C20_SCRIPT"); f != "" { // debugging aid: lay out just this script
 		b, _ := os.ReadFile(f)
 		scripts, n = []c20Script{{string(b), "debug"}}, 1
+	}
+	// debugging / mutation-testing aid: C20_CLASSES=container,grid restricts the run to corpus classes with one of these
+	// prefixes (no random scripts, no synthetic geometry unless "syn" is listed)
+	only := os.Getenv("C20_CLASSES")
+	if only != "" {
+		var keep []c20Script
+		for _, sc := range scripts {
+			for _, pre := range strings.Split(only, ",") {
+				if strings.HasPrefix(sc.class, pre) {
+					keep = append(keep, sc)
+					break
+				}
+			}
+		}
+		scripts, n = keep, len(keep)
 	}
 	for tries := 0; len(scripts) < n && tries < 20*n; tries++ {
 		s := c20Random(r.Fork())
@@ -409,7 +443,7 @@ func c20Gen(r *Rng, tier string, n int) []Case {
 			}
 		}
 	}
-	if os.Getenv("C20_SCRIPT") != "" {
+	if os.Getenv("C20_SCRIPT") != "" || (only != "" && !strings.Contains(only, "syn")) {
 		return out
 	}
 	// (a) synthetic geometry
